@@ -27,6 +27,7 @@ META = {
 META["claim"] += " " + "Also: losses that cut a frame or a fragmented message in half, a TLS end of stream without close_notify (SSLEOFError), a server close frame with an undecodable reason, outages of hundreds of refused attempts, and run_forever's return value (True exactly when an error was reported)."
 META["claim"] += " " + 'Round 4: nine more ways for a connection attempt to fail (unreachable, connect timeout, resolver error, EIO, 500, garbage response, wrong accept value, TLS certificate failure, TLS protocol error); loss while a keepalive ping is still being written on a slow path.'
 META["claim"] += " " + 'Round 5: the interval taken from websocket.setReconnect() instead of the argument.'
+META["claim"] += " " + 'Rounds 6-7: a failing header callable; rejections carrying a binary body; an open callback that sends and reads an answer from the connection itself and loses the connection there.'
 
 LOSSES = ["refused", "reject", "eof", "reset", "pingtimeout"]
 TLS_LOSSES = ["ssl-eof"]
